@@ -274,9 +274,10 @@ def r2_hash_determinism(chk, repo):
     rtxt = norm([n for n in walk_body(rep.node) if isinstance(n, ast.Return)][0].value)
     chk.check("self._run_id" in rtxt and "self.data_type" in rtxt and "self.lineage_hash" in rtxt, "C02.R2", rep, None, "directory name does not consist of run id, data type and lineage hash", site_text="DataKey.__repr__: run_id-data_type-lineage_hash")
     fd = repo.func("DataDirectory._find", FILES)
-    fdefs = Defs(fd.node)
-    dn = fdefs.single("dirname")
-    chk.check(dn is not None and "str(key)" in norm(dn) and "self.path" in norm(dn), "C02.R2", fd, None, "directory looked up is not <path>/<str(key)>", site_text="DataDirectory._find: dirname = join(path, str(key))")
+    from ..pattern import local_defined_as
+    DN, dn_assign, _b = local_defined_as(fd.node, "osp.join(self.path, str(key))")
+    uses = [c for c in calls_in(fd.node) if DN and (call_name(c) or "") in ("os.path.exists", "osp.exists", "self.backend_key") and c.args and norm(c.args[0]) == DN]
+    chk.check(DN is not None and len(uses) >= 2, "C02.R2", fd, None, "directory looked up is not <path>/<str(key)>", site_text="DataDirectory._find: dirname = join(path, str(key))")
 
 
 # ------------------------------------------------------------------------------------ R3
@@ -286,6 +287,10 @@ def r3_track(chk, repo):
     cfg = cfg_of(f)
     defs = Defs(f.node)
     n_ins = 0
+    lin0 = [n for n in walk_body(f.node) if isinstance(n, ast.Assign) and any(norm(t) == "plugin.lineage" for t in n.targets) and isinstance(n.value, ast.Dict)]
+    CFGS = None
+    if lin0 and isinstance(lin0[0].value.values[0], ast.Tuple) and len(lin0[0].value.values[0].elts) == 3 and isinstance(lin0[0].value.values[0].elts[2], ast.Name):
+        CFGS = lin0[0].value.values[0].elts[2].id
     for n in walk_body(f.node):
         if isinstance(n, ast.DictComp) and any("plugin.config" in norm(g.iter) for g in n.generators):
             n_ins += 1
@@ -293,7 +298,7 @@ def r3_track(chk, repo):
             chk.check(any(c.endswith(".track") and "takes_config" in c for c in conds), "C02.R3", f, stmt_of(n), "untracked options enter the lineage (ordinary plugins): changing them would change storage keys", site_text="__add_lineage_to_plugin: ordinary branch filters on .track")
         if isinstance(n, ast.Assign):
             for t in n.targets:
-                if isinstance(t, ast.Subscript) and norm(t.value) == "configs":
+                if isinstance(t, ast.Subscript) and CFGS is not None and norm(t.value) == CFGS:
                     vp = provenance(defs, n.value)
                     if "plugin.config" not in vp:
                         continue
@@ -305,7 +310,7 @@ def r3_track(chk, repo):
     lin = [n for n in walk_body(f.node) if isinstance(n, ast.Assign) and any(norm(t) == "plugin.lineage" for t in n.targets)]
     chk.need(len(lin) == 1 and isinstance(lin[0].value, ast.Dict), "C02.R3: plugin.lineage assignment not found")
     v = lin[0].value.values[0]
-    ok = isinstance(v, ast.Tuple) and len(v.elts) == 3 and "__name__" in norm(v.elts[0]) and norm(v.elts[1]) == "plugin.version()" and norm(v.elts[2]) == "configs"
+    ok = isinstance(v, ast.Tuple) and len(v.elts) == 3 and "__name__" in norm(v.elts[0]) and norm(v.elts[1]) == "plugin.version()" and CFGS is not None and norm(v.elts[2]) == CFGS
     chk.check(ok, "C02.R3", f, lin[0], "lineage entry is not (class name, version(), tracked options)", site_text="__add_lineage_to_plugin: (class name, version, configs)")
     upd = [n for n in walk_body(f.node) if isinstance(n, ast.For) and "depends_on" in norm(n.iter) and any(norm(c.func) == "plugin.lineage.update" for c in calls_in(n))]
     chk.check(bool(upd), "C02.R3", f, None, "lineage does not include the lineage of every dependency: a change upstream would not change this key", site_text="__add_lineage_to_plugin: lineage of all dependencies merged in")
@@ -353,17 +358,20 @@ def r4_exact_unless_fuzzy(chk, repo):
         chk.check(("fuzzy_for or fuzzy_for_options", True) in facts, "C02.R4", fd, s.stmt, "all data directories are scanned for a loosely matching lineage although no fuzzy option is given", site_text="DataDirectory._find: scan only under fuzzy options")
     fm = repo.func("DataDirectory._folder_matches", FILES)
     mcfg = cfg_of(fm)
-    good = [n for n in mcfg.stmt_nodes() if isinstance(n.stmt, ast.Return) and norm(n.stmt.value) == "_run_id"]
+    from ..pattern import find as _pf
+    parse = _pf(fm.node, "(L_rid, L_dt, L_h) = self._parse_folder_name(fn)")
+    chk.check(len(parse) == 1, "C02.R4", fm, None, "folder name is not parsed into run id, data type and hash", site_text="_folder_matches: (run id, data type, hash) = _parse_folder_name(fn)")
+    RID, DT, HH = (parse[0][1]["L_rid"], parse[0][1]["L_dt"], parse[0][1]["L_h"]) if parse else ("_run_id", "_data_type", "_hash")
+    good = [n for n in mcfg.stmt_nodes() if isinstance(n.stmt, ast.Return) and norm(n.stmt.value) == RID]
     chk.floor("C02.R4", "positive returns in _folder_matches", len(good), 2)
     for n in good:
         facts = mcfg.guard_facts(n)
-        base = ("_data_type != key.data_type", False) in facts and (("_run_id != key._run_id", False) in facts)
-        chk.check(("_data_type != key.data_type", False) in facts, "C02.R4", fm, n.stmt, "folder accepted without comparing the data type", site_text="_folder_matches: data type compared")
+        chk.check((f"{DT} != key.data_type", False) in facts, "C02.R4", fm, n.stmt, "folder accepted without comparing the data type", site_text="_folder_matches: data type compared")
         if ("fuzzy_for", False) in facts and ("fuzzy_for_options", False) in facts:
-            chk.check(("_hash == key.lineage_hash", True) in facts, "C02.R4", fm, n.stmt, "folder accepted without comparing the lineage hash", site_text="_folder_matches: exact branch compares the lineage hash")
+            chk.check((f"{HH} == key.lineage_hash", True) in facts, "C02.R4", fm, n.stmt, "folder accepted without comparing the lineage hash", site_text="_folder_matches: exact branch compares the lineage hash")
         else:
             chk.check(any(t.startswith("self._matches(") and p for t, p in facts), "C02.R4", fm, n.stmt, "fuzzy branch accepts a folder without comparing lineages", site_text="_folder_matches: fuzzy branch compares filtered lineages")
-    rid = [n for n in mcfg.stmt_nodes() if isinstance(n.stmt, ast.Return) and isinstance(n.stmt.value, ast.Constant) and n.stmt.value.value is False and (("_run_id != key._run_id", True) in mcfg.guard_facts(n))]
+    rid = [n for n in mcfg.stmt_nodes() if isinstance(n.stmt, ast.Return) and isinstance(n.stmt.value, ast.Constant) and n.stmt.value.value is False and ((f"{RID} != key._run_id", True) in mcfg.guard_facts(n))]
     chk.check(bool(rid), "C02.R4", fm, None, "folder of another run (or another superrun definition) can match", site_text="_folder_matches: run id (incl. superrun suffix) compared")
 
 
